@@ -82,6 +82,19 @@ def pcdSafeHyp (f : List (List Float)) (nObj : Nat) (nRemove : Int) : Bool :=
   f.all (fun r => r.length == nObj) && maxOnceAll f nObj &&
     decide ((clampRemove nRemove n nObj - 1).toNat ≤ nonEx)
 
+/-- executable `C13.NoTies` (hypothesis of `C13.mnnKernelF_refines`): in every row of the distance matrix, the point's own
+zero included, no two entries are equal -/
+def noTiesHyp (f : List (List Float)) (nObj : Nat) : Bool :=
+  let xs := normalizeCols f nObj
+  let n := f.length
+  (List.range n).all fun i =>
+    let row := (List.range n).map fun j => dmAt xs i j
+    let s := row.mergeSort fun a b => !(b < a)
+    let rec dup : List Float → Bool
+      | a :: b :: r => !(a < b) || dup (b :: r)
+      | _ => false
+    !dup s
+
 /-- `crowd3 <label> <n_remove> <F>` → compiled raw | fallback raw | wrapped compiled | wrapped fallback -/
 def compCrowd3 : P String := do
   let label ← tok
@@ -122,6 +135,11 @@ def compCrowd3 : P String := do
         return s!"err functional mnn kernel ok={okF} but the interpreter logged {other.length} out-of-bounds accesses besides mnn.pyx:207"
       if (2 ≤ nObj || !tw) && !okF then
         return "err functional mnn kernel uses an unassigned neighbour slot (contradicts C13.mnnKernelF_safe)"
+      -- hypotheses of C13.mnnKernelF_refines ⇒ the kernel returns the definition's values
+      if (2 ≤ nObj || !tw) && f.all (fun r => r.length == nObj) && noTiesHyp f nObj then
+        let dD := mnnFallback f nObj nRemove tw
+        if (dF.map fun (x : Ext Float) => x.toFloat.toBits) != (dD.map fun (x : Ext Float) => x.toFloat.toBits) then
+          return "err functional mnn kernel differs from the definition although no distance row has ties (contradicts C13.mnnKernelF_refines)"
     return s!"ok {bOut ties} | {crowdOne label metric true false nRemove f} | {crowdOne label metric false false nRemove f} | {crowdOne label metric true true nRemove f} | {crowdOne label metric false true nRemove f}"
 
 end Pymoode.Drv
